@@ -333,12 +333,15 @@ JudgeQuery(e) ==
     [] e.ev = "filter" -> J("C15", e, "filter_symbols result", e.paths = FilterPaths(ns, e.filter, e.pred))
     [] e.ev = "find" -> J("C15", e, "find_symbol result", e.found = FindPath(ns, e.filter, e.pred))
     [] e.ev = "filters" -> J("C15", e, "filter_symbols result",
-                               \A k \in DOMAIN e.preds : e.paths[k] = FilterPaths(ns, e.filter, e.preds[k]))
+                               LET w == WalkIx(ns, e.filter)
+                               IN \A k \in DOMAIN e.preds : e.paths[k] = FilterWith(ns, w, e.preds[k]))
     [] e.ev = "finds" -> J("C15", e, "find_symbol result",
-                             \A k \in DOMAIN e.preds : e.found[k] = FindPath(ns, e.filter, e.preds[k]))
+                             LET w == WalkIx(ns, e.filter)
+                             IN \A k \in DOMAIN e.preds : e.found[k] = FindWith(ns, w, e.preds[k]))
     [] e.ev = "lookups" ->
          J("C16", e, "find_symbol_at_line_col result",
-           \A k \in DOMAIN e.positions : e.found[k] = LookupPath(ns, e.filter, e.positions[k][1], e.positions[k][2]))
+           LET w == WalkIx(ns, e.filter)
+           IN \A k \in DOMAIN e.positions : e.found[k] = LookupWith(ns, w, e.positions[k][1], e.positions[k][2]))
     [] e.ev = "walktypes" -> J("C15", e, "walk_types order / coverage", e.paths = WalkTypesPaths(ns))
     [] e.ev = "walkmethods" -> J("C15", e, "walk_methods order / coverage", e.paths = WalkMethodsPaths(ns))
     [] e.ev = "walkargs" -> J("C15", e, "walk_args order / coverage", e.pairs = WalkArgsPairs(ns))
